@@ -15,7 +15,7 @@ Definition reserved (s : string) : bool :=
 Definition allowed : list string :=
   ["impl"; "for"; "where"; "fn"; "match"; "let"; "mut"; "return"; "type"; "const"; "as"; "self"; "Self"; "automatically_derived";
    "allow"; "clippy"; "double_parens"; "unused_parens"; "core"; "ops"; "cmp"; "hash"; "fmt"; "clone"; "default"; "marker";
-   "option"; "convert"; "Fn"; "Sized"; "Eq"; "Ord"; "PartialEq"; "PartialOrd"; "Hash"; "Hasher"; "Clone"; "Copy"; "Debug";
+   "option"; "convert"; "primitive"; "Fn"; "Sized"; "Eq"; "Ord"; "PartialEq"; "PartialOrd"; "Hash"; "Hasher"; "Clone"; "Copy"; "Debug";
    "Default"; "Deref"; "DerefMut"; "Into"; "PhantomData"; "Option"; "Some"; "Ordering"; "Equal"; "Formatter"; "Result"; "Output"; "Target";
    "eq"; "partial_cmp"; "cmp"; "deref"; "deref_mut"; "into"; "map"; "reverse"; "finish"; "field"; "debug_struct";
    "debug_tuple"; "stringify"; "unreachable"; "clone_from"; "bool"; "usize"; "true"; "false"; "T";
